@@ -127,6 +127,7 @@ type decRes struct {
 	panicked string
 	timeout  bool
 	unread   int
+	noTables bool // the table-building calls did not return in the child: no Coq term for this case
 }
 
 const decodeTimeout = 20 * time.Second
@@ -135,6 +136,14 @@ const decodeTimeout = 20 * time.Second
 type plainReader struct{ r *bytes.Reader }
 
 func (p plainReader) Read(b []byte) (int, error) { return p.r.Read(b) }
+
+func (w *world) rawDecode(in []byte, seekable bool) (module.BlockData, error) {
+	rd := bytes.NewReader(append([]byte{}, in...))
+	if seekable {
+		return w.bdf.NewBlockDataFromReader(rd)
+	}
+	return w.bdf.NewBlockDataFromReader(plainReader{rd})
+}
 
 func (w *world) decode(in []byte, seekable bool) *decRes {
 	res := &decRes{}
@@ -471,7 +480,14 @@ func filterOf(dg module.BTPDigest) (f []byte, ok bool) {
 
 // property C08 on one input: "" when it holds
 func (w *world) oracle(in []byte, ex expect) (string, *decRes) {
+	// a child process goes first: a decoder that hangs or eats memory takes only the child down
+	pr := w.probe(in)
+	if pr.decoder == "hang" {
+		return fmt.Sprintf("decoding %d bytes does not return within %v or exhausts memory (child process killed)", len(in), guardTimeout),
+			&decRes{timeout: true}
+	}
 	r := w.decode(in, true)
+	r.noTables = !pr.tables
 	if r.timeout {
 		return fmt.Sprintf("decoding %d bytes does not return within %v", len(in), decodeTimeout), r
 	}
